@@ -107,10 +107,10 @@ var reSVerdict = regexp.MustCompile(`SpecOk|SpecNA|SpecBad\s+"([0-9a-f]*)"\s+(\d
 // RunCases evaluates the cases in the Gallina model: cases.v shards, one coqc each, in parallel.
 func RunCases(o *Options, cases []*VCase) error {
 	const shard = 120
-	gennow, err := prepareGenNow(o)
-	if err != nil {
-		return err
-	}
+	// the parser model of this run; when it cannot be regenerated from the source the cases run
+	// without it and the runner reports that (parserModelBroken)
+	gennow, gerr := prepareGenNow(o)
+	usePM := gerr == nil
 	type job struct{ lo, hi int }
 	var jobs []job
 	for lo := 0; lo < len(cases); lo += shard {
@@ -130,13 +130,20 @@ func RunCases(o *Options, cases []*VCase) error {
 			sem <- struct{}{}
 			defer func() { <-sem }()
 			var sb strings.Builder
-			sb.WriteString("From Coq Require Import String.\nFrom DT Require Import Model.Bytes Model.Value Model.Tree Model.Interp Model.VCase Spec.Ast Spec.RefEval Spec.SCase Model.Parser Model.PCase.\nFrom GenNow Require Import RegexTable ParseEnv.\nLocal Open Scope string_scope.\n")
+			sb.WriteString("From Coq Require Import String.\nFrom DT Require Import Model.Bytes Model.Value Model.Tree Model.Interp Model.VCase Spec.Ast Spec.RefEval Spec.SCase Model.Parser Model.PCase.\n")
+			if usePM {
+				sb.WriteString("From GenNow Require Import RegexTable ParseEnv.\n")
+			}
+			sb.WriteString("Local Open Scope string_scope.\n")
 			var names, snames, pnames, pmnames []string
 			pmcount := map[int]int{}
 			for _, c := range cases[j.lo:j.hi] {
 				sb.WriteString(c.gallina())
 				names = append(names, fmt.Sprintf("check_case c%d", c.ID))
-				pt := c.parserModelTerms()
+				var pt []string
+				if usePM {
+					pt = c.parserModelTerms()
+				}
 				pmcount[c.ID] = len(pt)
 				pmnames = append(pmnames, pt...)
 				if c.Spec != "" {
